@@ -1212,7 +1212,9 @@ class C09(Property):
                 r = list(iu.chunk_ranges(**kw))
             else:
                 r = list(iu.chunk_ranges(size, cs, off, ov, case['align']))
-            if not all(type(t) is tuple and len(t) == 2 and type(t[0]) is int and type(t[1]) is int for t in r):
+            # "ranges": pairs of ints (today tuples; the statement does not fix the pair type)
+            if not all(isinstance(t, (tuple, list)) and len(t) == 2 and type(t[0]) is int and type(t[1]) is int
+                       for t in r):
                 raise BadValue('chunk_ranges yielded %r' % (r[:3],))
             return [[s, e] for s, e in r]
         kind = case['kind']
@@ -1401,7 +1403,7 @@ class C09(Property):
                 kfc = case['kf']
                 kw['key_filter'] = as_callable_kind(lambda kk: kcls(kk) != kfc, case.get('kc'))
             r = iu.bucketize(src, **kw)
-            if type(r) is not dict:
+            if not isinstance(r, dict):        # a dict (or a subclass: the statement only speaks of buckets)
                 raise BadValue('bucketize returned %s' % type(r).__name__)
             if isinstance(k, list) and [(type(x), x) for x in k] != [(type(dec(c)), dec(c)) for c in key[1]]:
                 raise BadValue('the key list was modified by the call')
@@ -1474,6 +1476,8 @@ class C09(Property):
             return Failure('raises', '%s raised %s on valid parameters' % (op, r['exc']))
         got = r['ok']
         f = getattr(self, 'o_' + op)(case, got)
+        if f is not None and len(f.what) > 600:
+            f.what = f.what[:380] + ' ... ' + f.what[-200:]      # long inputs: keep both ends of the message
         return f
 
     @staticmethod
